@@ -82,7 +82,7 @@ def make_history(rng):
         for _ in range(rng.randrange(1, 5)):
             if rng.random() < 0.45:
                 s, a = rng.choice(hot)
-                batch.append((s, a, rng.choice([0, 1, -3, True, False, 1.0, 0.0]), True))       # hot cells alternate between few values: a, b, a again - and between values that are == but not the same constant (1, TRUE, 1.0)
+                batch.append((s, a, rng.choice([0, 1, -3, True, False]), True))       # hot cells alternate between few values: a, b, a again - and between values that are == but not the same constant (1 and TRUE, 0 and FALSE; whole floats are left out: a workbook stores 1.0 as 1, so the edited workbook would not hold the same constant)
                 continue
             s = rng.choice([0, 0, 1])
             a = rng.choice(TARGETS[s])
